@@ -1230,7 +1230,62 @@ func c08Loop(c *Ctx, p *Prog) {
 		return
 	}
 	list := c.UniqueCall("C08.L", p, f, false, ModPath+"/agent/utils.ListPendingRequests")
-	sleep := c.UniqueCall("C08.L", p, f, false, "time.Sleep")
+	// the delay: time.Sleep(d), or a select on a fresh timer for d (time.NewTimer(d).C / time.After(d),
+	// made for this failure and never re-armed) whose only other arm is the polling context's Done
+	// and leaves the loop
+	var sleep ssa.Instruction
+	var delayArg ssa.Value
+	var delaySel *ssa.Select
+	if len(Calls(f, "time.Sleep")) == 0 {
+		EachInstr(f, func(i ssa.Instruction) {
+			sel, isSel := i.(*ssa.Select)
+			if !isSel || !sel.Blocking || sleep != nil {
+				return
+			}
+			var tm *ssa.Call
+			other := false
+			for _, st := range sel.States {
+				switch {
+				case st.Dir == types.RecvOnly && isTimerChan(st.Chan):
+					if call := CallResult(st.Chan, 0, "time.After"); call != nil {
+						tm = call
+					} else if base, fld, ok := FieldLoad(st.Chan); ok && fld == "C" {
+						tm = CallResult(base, 0, "time.NewTimer")
+					}
+				case st.Dir == types.RecvOnly && isDoneChan(st.Chan):
+				default:
+					other = true
+				}
+			}
+			if tm != nil && !other {
+				sleep, delayArg, delaySel = sel, PArgs(&tm.Call)[0], sel
+			}
+		})
+		if sleep == nil {
+			reused := ssa.Instruction(nil)
+			EachInstr(f, func(i ssa.Instruction) {
+				if sel, isSel := i.(*ssa.Select); isSel {
+					for _, st := range sel.States {
+						if base, fld, ok := FieldLoad(st.Chan); ok && fld == "C" && NamedType(base.Type()) == "time.Timer" && !isTimerChan(st.Chan) {
+							reused = sel
+						}
+					}
+				}
+			})
+			if reused != nil {
+				c.Bad("C08.L", "site:agent.pollForNewRequests:delay", p, reused.Pos(), "the back-off wait receives from a timer that is re-armed with Reset (or shared between iterations): a tick left in its channel — the creation tick of NewTimer(0), or one that fired during the previous attempt — ends the next wait at once, so failed polls are not followed by the back-off delay")
+				return
+			}
+			c.Unk("C08.L", "site:agent.pollForNewRequests:delay", p, f.Pos(), "neither a time.Sleep call nor a select on a fresh timer found in agent.pollForNewRequests: the rule cannot identify the back-off wait")
+			return
+		}
+		c.OK("C08.L", "site:agent.pollForNewRequests:call time.Sleep", p, sleep.Pos(), "the back-off wait is a select on a fresh timer and the polling context")
+	} else {
+		sleep = c.UniqueCall("C08.L", p, f, false, "time.Sleep")
+		if sleep != nil {
+			delayArg = Args(CallOf(sleep))[0]
+		}
+	}
 	if list == nil || sleep == nil {
 		return
 	}
@@ -1251,12 +1306,12 @@ func c08Loop(c *Ctx, p *Prog) {
 	failBlk := errIf.Block().Succs[failSucc]
 	okBlk := errIf.Block().Succs[1-failSucc]
 	// sleep argument
-	bo := CallResult(Args(CallOf(sleep))[0], 0, ModPath+"/agent/utils.ExponentialBackoffDuration")
+	bo := CallResult(delayArg, 0, ModPath+"/agent/utils.ExponentialBackoffDuration")
 	var phi *ssa.Phi
 	if bo != nil {
 		phi, _ = PArgs(&bo.Call)[0].(*ssa.Phi)
 	}
-	c.Check("C08.L", "sleep:duration-is-backoff-of-counter", p, sleep.Pos(), bo != nil && phi != nil, "time.Sleep(ExponentialBackoffDuration(<loop-carried counter>))", "the sleep duration is not ExponentialBackoffDuration(<loop-carried counter>): "+PathOf(Args(CallOf(sleep))[0]))
+	c.Check("C08.L", "sleep:duration-is-backoff-of-counter", p, sleep.Pos(), bo != nil && phi != nil, "time.Sleep(ExponentialBackoffDuration(<loop-carried counter>))", "the sleep duration is not ExponentialBackoffDuration(<loop-carried counter>): "+PathOf(delayArg))
 	if phi == nil {
 		return
 	}
@@ -1264,7 +1319,37 @@ func c08Loop(c *Ctx, p *Prog) {
 	// every path from the failure successor to the loop head passes the sleep
 	w := &Walk{Target: func(i ssa.Instruction) bool { return i.Block() == head && i == head.Instrs[0] }, Avoid: func(i ssa.Instruction) bool { return i == sleep }}
 	hit, path := w.FromBlock(failBlk)
-	c.Check("C08.L", "failure-arm:always-sleeps", p, sleep.Pos(), hit == nil && (failBlk == sleep.Block() || failBlk.Dominates(sleep.Block())), "every path from a failed list call back to the loop head passes the sleep", "a path from the failed list call returns to the loop head without sleeping ("+PathString(p, path)+"): the agent busy-loops against a failing proxy")
+	okArm := true
+	if delaySel != nil {
+		// the timer is made for this failure (not hoisted out of the loop and reused: a tick left in
+		// a reused timer's channel ends the next wait at once) …
+		for _, st := range delaySel.States {
+			if isTimerChan(st.Chan) {
+				for _, r := range Roots(st.Chan) {
+					if ri, isI := r.(ssa.Instruction); isI && !(ri.Block() == failBlk || failBlk.Dominates(ri.Block())) {
+						okArm = false
+					}
+				}
+			}
+		}
+		// … and the arm of the polling context does not lead back to the loop head
+		for k, st := range delaySel.States {
+			if !isDoneChan(st.Chan) {
+				continue
+			}
+			idx := int64(k)
+			env := func(v ssa.Value) (constant.Value, bool) {
+				if ex, isE := v.(*ssa.Extract); isE && ex.Tuple == ssa.Value(delaySel) && ex.Index == 0 {
+					return IntC(idx), true
+				}
+				return nil, false
+			}
+			if h, _ := (&Walk{Target: func(i ssa.Instruction) bool { return i.Block() == head && i == head.Instrs[0] }, Edge: EdgeUnder(env), Local: true}).FromInstr(delaySel); h != nil {
+				okArm = false
+			}
+		}
+	}
+	c.Check("C08.L", "failure-arm:always-sleeps", p, sleep.Pos(), okArm && hit == nil && (failBlk == sleep.Block() || failBlk.Dominates(sleep.Block())), "every path from a failed list call back to the loop head passes the sleep", "a path from the failed list call returns to the loop head without sleeping ("+PathString(p, path)+"): the agent busy-loops against a failing proxy")
 	// the sleep is not in an inner loop / not skipped by the success arm: it must not be reachable from the success arm without passing the loop head
 	// phi edges
 	okInc, okReset, okInit := true, true, true
